@@ -357,9 +357,29 @@ func (e *Enc) heapGet(st *State, hk *heapKey) string {
 		ep = re
 	}
 	name := smtIdent(fmt.Sprintf("H%d:%s", ep, hk.Key))
+	if !e.declSet[name] && ep == 0 && hk.Sort == "(Array Int (Array Int Int))" && isRefLeaf(hk.Leaf) {
+		// references stored in the entry heap denote objects that existed at entry
+		e.declare(name, hk.Sort)
+		e.assume("(forall ((r Int) (i Int)) (! (<= (select (select " + name + " r) i) alloc0) :pattern ((select (select " + name + " r) i))))")
+	}
 	e.declare(name, hk.Sort)
 	st.heap[hk.Key] = name
 	return name
+}
+
+// isRefLeaf: the leaf holds an object reference (pointer/slice ref component, map,
+// chan, func).
+func isRefLeaf(lf Leaf) bool {
+	if lf.T == nil || lf.Dims != 0 {
+		return false
+	}
+	switch lf.T.Underlying().(type) {
+	case *types.Pointer, *types.Slice:
+		return len(lf.Path) > 0 && lf.Path[len(lf.Path)-1] == 1000
+	case *types.Map, *types.Chan, *types.Signature:
+		return true
+	}
+	return false
 }
 
 func (e *Enc) heapSet(st *State, hk *heapKey, term string) {
